@@ -19,6 +19,9 @@ def run(rep, tier):
     mapping.bound_spellings(rep)
     mapping.repeat_mapping(rep)         # e{m,n} / List(e, min_len=m, max_len=n), zero bounds included
     mapping.precedence_rows(rep)
+    # {m,n} hands an inline-Python bound to List as text, List(e, min_len=..) hands it evaluated: the text must be
+    # emitted as one operand (`len(x) >= (2 or 5)`), or the two spellings of one bound behave differently
+    mapping.bound_atomicity(rep)
     # the two spellings of a bound reach List as str resp. int: the static flags must be sound for both
     from .. import e1run
     rep.rule('G2-cp-sound', 'List flags are sound for the str and the int spelling of every bound')
